@@ -361,7 +361,22 @@ def main(mod, argv):
     seed = int(os.environ.get("VERIF_SEED", "0") or 0)
     prop = mod.PROP
     os.makedirs(SHM, exist_ok=True)
+    import faulthandler
+
+    faulthandler.register(signal.SIGUSR1, all_threads=True)  # kill -USR1 <pid> dumps the stacks
+    # never share pydra's per-user persistent hash cache with other processes
+    hc_dir = os.path.join(SHM, f"hashcache-{os.getpid()}")
+    os.makedirs(hc_dir, exist_ok=True)
+    os.environ["PYDRA_HASH_CACHE"] = hc_dir
+    import atexit
+
+    atexit.register(shutil.rmtree, hc_dir, True)
     warm()
+    # install the seams once, up front, with a pass-through runtime: checks switch
+    # runtimes (simulated / recording) but never re-patch
+    from . import rt as _rt
+
+    _rt.install(_rt.NullRT())
     wall = getattr(mod, "CASE_WALL", 90)
     nonce = f"{os.getpid()}-{time.time_ns()}"
     mod_name = mod.__name__.split(".")[-1]
@@ -453,6 +468,8 @@ def main(mod, argv):
     exit_code = 0
     out_lines = []
     replays = []
+    if new_viol:
+        print("violation groups (clause/sig: cases): " + "; ".join(f"{c}/{g}: {len(it)}" for (c, g), it in new_viol))
     for (clause, sig), items in new_viol[:12]:
         idx, v = items[0]
         case, res = cases[idx], results[idx]
